@@ -163,6 +163,8 @@ class World:
             kw["bases"] = bases
         if op.get("formula") is not None:
             kw["formula"] = op["sfsrc"]
+        if op.get("refs"):
+            kw["refs"] = dict(op["refs"])
         parent.new_space(op["name"], **kw)
 
     def op_del_space(self, op):
